@@ -1,10 +1,11 @@
 SPECIFICATION TSpec
 CONSTANTS
-  CapMax = 16
+  CapMax = 24
   Profiles <- ProfTrace
   MaxSteps = 4
   PairChecked = TRUE
   IslandClears = TRUE
+  DualChecked = TRUE
 INVARIANT Apart
 INVARIANT NoDerefNull
 INVARIANT Consistent
